@@ -924,3 +924,91 @@ def rule_queue_items_come_from_the_parser(ctx, rule='C04.m'):
     if not bad:
         rep.ok(rule, 'message transports / what is queued comes from the frame parser',
                repo.cls('rsocket.transports.abstract_messaging:AbstractMessagingTransport'), '%d put sites' % n)
+
+
+# --------------------------------------------------------- close() cancels its feeder task and waits for it
+def rule_close_contains_its_own_cancellation(ctx, rule='C17.j'):
+    """A transport's close() that cancels the task it started and then awaits it must not let that cancellation out:
+    `await task` re-raises the task's CancelledError in close(), _close_transport catches Exception only, and the
+    CancelledError lands in whoever closes the old transport - on a reconnect that is the reconnect listener, which
+    takes it for its own shutdown and ends without connecting the next transport.  For every `await <x>` in a close()
+    of a transport class that follows `<x>.cancel()`: the await sits in a `try` that catches CancelledError, or the
+    coroutine the task runs (the method handed to create_task for that attribute) catches CancelledError around its
+    whole loop without re-raising."""
+    rep = ctx.report
+    repo = ctx.repo
+    base = repo.cls('rsocket.transports.transport:Transport')
+    n = 0
+    for k in sorted(repo.concrete_subclasses(base, include_self=False), key=lambda c: c.qualname):
+        f = k.lookup('close')
+        if f is None or not f.module.name.startswith('rsocket.transports'):
+            continue
+        cancelled = {ast.unparse(c.func.value) for c in walk_local(f.node)
+                     if isinstance(c, ast.Call) and isinstance(c.func, ast.Attribute) and c.func.attr == 'cancel'}
+        parents = {}
+        for x in ast.walk(f.node):
+            for ch in ast.iter_child_nodes(x):
+                parents[ch] = x
+        for a in walk_local(f.node):
+            if not (isinstance(a, ast.Await) and ast.unparse(a.value) in cancelled):
+                continue
+            n += 1
+            what = ast.unparse(a.value)
+            ok, why = False, ''
+            x = a
+            while x in parents and not ok:
+                p = parents[x]
+                if isinstance(p, ast.Try) and any(x is b or x in list(ast.walk(b)) for b in p.body):
+                    for h in p.handlers:
+                        names = ast.unparse(h.type) if h.type is not None else 'BaseException'
+                        if ('CancelledError' in names or 'BaseException' in names) and \
+                                not any(isinstance(y, ast.Raise) for y in ast.walk(ast.Module(body=h.body,
+                                                                                              type_ignores=[]))):
+                            ok, why = True, 'the await is inside try/except CancelledError'
+                x = p
+            if not ok and isinstance(a.value, ast.Attribute) and isinstance(a.value.value, ast.Name) and \
+                    a.value.value.id == 'self':
+                # the coroutine behind the attribute
+                coros = []
+                for kk in k.mro():
+                    for g in getattr(kk, 'methods', {}).values():
+                        for st in walk_local(g.node):
+                            if isinstance(st, ast.Assign) and any(ast.unparse(t) == what for t in st.targets) and \
+                                    isinstance(st.value, ast.Call) and 'create_task' in ast.unparse(st.value.func) and \
+                                    st.value.args:
+                                arg = st.value.args[0]
+                                if isinstance(arg, ast.Name):  # a temporary bound once to the coroutine
+                                    defs = [y.value for y in walk_local(g.node) if isinstance(y, ast.Assign) and
+                                            len(y.targets) == 1 and isinstance(y.targets[0], ast.Name) and
+                                            y.targets[0].id == arg.id]
+                                    arg = defs[0] if len(defs) == 1 else arg
+                                if isinstance(arg, ast.Call) and isinstance(arg.func, ast.Attribute):
+                                    c = k.lookup(arg.func.attr)
+                                    if c is not None:
+                                        coros.append(c)
+                if coros:
+                    good = True
+                    for c in coros:
+                        tries = [t for t in c.node.body if isinstance(t, ast.Try)]
+                        swallow = False
+                        for t in tries:
+                            for h in t.handlers:
+                                names = ast.unparse(h.type) if h.type is not None else 'BaseException'
+                                if 'CancelledError' in names and not any(
+                                        isinstance(y, ast.Raise)
+                                        for y in ast.walk(ast.Module(body=h.body, type_ignores=[]))):
+                                    swallow = True
+                        # every awaiting statement of the coroutine is inside such a try (or before it, on a path that
+                        # cannot be cancelled yet is not decidable here: require the try to be the last statement and
+                        # everything before it free of awaits other than waiting for readiness)
+                        if not swallow:
+                            good = False
+                            why = ('%s() - the task behind %s - lets its CancelledError out (no handler that ends '
+                                   'normally)' % (c.node.name, what))
+                    if good:
+                        ok, why = True, 'the task\'s coroutine (%s) ends normally when cancelled' % ', '.join(
+                            c.node.name for c in coros)
+            rep.add(rule, '%s.close / awaiting the task it cancelled does not raise' % k.name, f, ok,
+                    why or 'await %s after %s.cancel(): the CancelledError of the task is re-raised in close()' % (
+                        what, what))
+    rep.require(rule, 'close() methods that cancel and await a task', n, 3)
